@@ -291,11 +291,13 @@ func (g *gen) sTuple() *Node {
 	g.spend(1)
 	switch g.rnd(5) {
 	case 0, 1: // swap two places of the same type
-		a := g.placeWhere(func(p place) bool { return p.assign && !invariantKind(p.t) })
+		a := g.placeWhere(func(p place) bool { return p.assign && !invariantKind(p.t) && !p.outer })
 		if a == nil {
 			return nil
 		}
-		b := g.placeWhere(func(p place) bool { return p.assign && same(p.t, a.t) && p.e.String() != a.e.String() })
+		b := g.placeWhere(func(p place) bool {
+			return p.assign && same(p.t, a.t) && p.e.String() != a.e.String() && !p.outer
+		})
 		if b == nil {
 			return nil
 		}
@@ -325,11 +327,11 @@ func (g *gen) sTuple() *Node {
 		g.declare(&Var{Name: p, T: &Type{K: KPtr, Elem: v.t}})
 		return nd
 	default: // three-way rotation with expressions
-		a := g.placeWhere(func(p place) bool { return p.assign && (p.t.isInt() || p.t.isString()) })
+		a := g.placeWhere(func(p place) bool { return p.assign && (p.t.isInt() || p.t.isString()) && !p.outer })
 		if a == nil {
 			return nil
 		}
-		b := g.placeWhere(func(p place) bool { return p.assign && same(p.t, a.t) })
+		b := g.placeWhere(func(p place) bool { return p.assign && same(p.t, a.t) && !p.outer })
 		if b == nil {
 			return nil
 		}
